@@ -8,6 +8,7 @@ mod c11;
 mod c10;
 mod pg;
 mod pgref;
+mod tabaut;
 mod aut;
 mod dom;
 mod autprops;
@@ -68,6 +69,11 @@ fn main() {
             o.write(&outdir);
             return;
         }
+        if line.starts_with("(tabcase") {
+            tabaut::replay(&line, &prop, &mut o);
+            o.write(&outdir);
+            return;
+        }
         if line.starts_with("(pgc11") {
             pg::replay_c11(&line, &mut o);
             o.write(&outdir);
@@ -103,6 +109,9 @@ fn main() {
             }
             "pg08" => pg::run("c08", tier, seed, &mut o),
             "pg11" => pg::run_c11(tier, seed, &mut o),
+            "tab03" => tabaut::run("c03", tier, seed, &mut o),
+            "tab06" => tabaut::run("c06", tier, seed, &mut o),
+            "tab09" => tabaut::run("c09", tier, seed, &mut o),
             "c17fp" => {
                 print!("{}", autprops::fingerprints(tier, seed));
                 return;
